@@ -407,4 +407,246 @@ theorem healthcheck_ok_active (h : S_forward_Handler) (ctx rq : Option Int) (mr 
       have : ¬ ((t.length : Int) + 1 = 0) := by omega
       simp [Returns, this]
 
+/-! ## `refresh`, `Refresh`, `checkUpstream`, `reportChange` -/
+
+theorem range_noop {α σ ρ : Type} (xs : List α) (s : σ) (i : Int) :
+    goRangeFrom (ρ := ρ) i xs s (fun st _ _ => .next st) = .inl s := by
+  induction xs generalizing i with
+  | nil => rfl
+  | cons x xs ih => simp [goRangeFrom, ih]
+
+/-- **Without configured fallbacks `refresh` does nothing**: the health check is never run, so no
+main upstream can be taken out of rotation. -/
+theorem refresh_no_fallbacks_noop (h : S_forward_Handler) (ctx : Option Int) (mr : Bool)
+    (hc : Option String) (h0 : h.fallbacks = []) : Handler_refresh h ctx mr hc = (none, []) := by
+  simp [Handler_refresh, h0]
+
+/-- With fallbacks it runs exactly one health-check round (passing `mustReport` on) and returns an
+error iff the round did. -/
+theorem refresh_runs_healthcheck (h : S_forward_Handler) (ctx : Option Int) (mr : Bool)
+    (hc : Option String) (h0 : h.fallbacks ≠ []) :
+    (Handler_refresh h ctx mr hc).2 = [("healthcheck", [toString ctx, toString mr])]
+    ∧ ((Handler_refresh h ctx mr hc).1 = none ↔ hc = none) := by
+  have hl : h.fallbacks.length ≠ 0 := by simpa using h0
+  simp [Handler_refresh, hl, goRange, range_noop]
+
+/-- The exported `Refresh` is `refresh` without forced reporting; its error is passed on. -/
+theorem Refresh_is_refresh (h : S_forward_Handler) (ctx : Option Int) (r : Option String) :
+    Handler_Refresh h ctx r = (r, [("refresh", [toString ctx, toString false])]) := by
+  simp [Handler_Refresh]
+
+/-- What `Exchange` hands the probe, for a model probe result. -/
+def encP : PRes → Option Int × String × Option String
+  | .resp _ => (some 1, "udp", none)
+  | .err => (none, "", some "e")
+  | .nil => (none, "", none)
+
+def rcodeP : PRes → Int
+  | .resp rc => rc
+  | _ => 0
+
+/-- **`checkUpstream` is the model's**: a probe succeeds iff there is a response whose RCODE is
+NOERROR; exactly one `Exchange` is made. -/
+theorem checkUpstream_tr (p : PRes) (ctx ups req : Option Int) (rs : String × Bool) :
+    ((Agd.Gen.TrC17.checkUpstream ctx ups req (encP p) (rcodeP p) rs).1 = none
+        ↔ Agd.Forward.checkUpstream p = true)
+    ∧ (Agd.Gen.TrC17.checkUpstream ctx ups req (encP p) (rcodeP p) rs).2
+        = [("Exchange", [toString ctx, toString req])] := by
+  obtain ⟨rstr, rok⟩ := rs
+  cases p with
+  | resp rc =>
+    by_cases h0 : rc = 0 <;> cases rok <;>
+      simp [Agd.Gen.TrC17.checkUpstream, Agd.Forward.checkUpstream, encP, rcodeP, h0]
+  | err => simp [Agd.Gen.TrC17.checkUpstream, Agd.Forward.checkUpstream, encP]
+  | nil => simp [Agd.Gen.TrC17.checkUpstream, Agd.Forward.checkUpstream, encP]
+
+/-- The status metric is set iff the status changed or reporting is forced, to "up" iff the probe
+returned no error. -/
+theorem reportChange_metric (h : S_forward_Handler) (ctx lg ups : Option Int) (err : Option String)
+    (wasUp mr : Bool) :
+    Handler_reportChange h ctx lg ups err wasUp mr
+      = if (wasUp != err.isNone) || mr
+        then [("OnUpstreamStatusChanged", [toString ups, toString true, toString err.isNone])] else [] := by
+  cases wasUp <;> cases mr <;> cases err <;> simp [Handler_reportChange]
+
+/-! ## `validatePlainResponse`, `readValidMsg`, `readMsg` -/
+
+/-- **A reply is accepted only if ID, question count (exactly one), type and (case-folded) name
+match**, checked in this order; the name comparison is `strings.EqualFold(request name, reply name)`. -/
+theorem validate_accepts_only_matching (rq rs : Option Int) (id1 id2 : Int) (respQs reqQs : List Int)
+    (t1 t2 : Int) (eqf : Bool) (n1 n2 : String) (tr : Trace)
+    (hv : validatePlainResponse rq rs id1 id2 respQs reqQs t1 t2 eqf n1 n2 = some (none, tr)) :
+    id1 = id2 ∧ respQs.length = 1 ∧ t1 = t2 ∧ eqf = true ∧ tr = [("EqualFold", [n1, n2])] := by
+  unfold validatePlainResponse at hv
+  by_cases hid : id1 = id2
+  · by_cases hl : (respQs.length : Int) = 1
+    · cases h1 : goIndex? reqQs 0 with
+      | none => simp [hid, hl, h1] at hv
+      | some a =>
+        cases h2 : goIndex? respQs 0 with
+        | none => simp [hid, hl, h1, h2] at hv
+        | some b =>
+          by_cases ht : t1 = t2 <;> cases eqf <;> simp [hid, hl, h1, h2, ht] at hv
+          exact ⟨hid, by omega, ht, rfl, hv.symm⟩
+    · simp [hid, hl] at hv
+  · simp [hid] at hv
+
+/-- It panics exactly when everything before the question comparison passes and the *request* has no
+question (`req.Question[0]`). -/
+theorem validate_no_panic_iff (rq rs : Option Int) (id1 id2 : Int) (respQs reqQs : List Int)
+    (t1 t2 : Int) (eqf : Bool) (n1 n2 : String) :
+    validatePlainResponse rq rs id1 id2 respQs reqQs t1 t2 eqf n1 n2 ≠ none
+      ↔ (id1 ≠ id2 ∨ respQs.length ≠ 1 ∨ reqQs ≠ []) := by
+  unfold validatePlainResponse
+  by_cases hid : id1 = id2
+  · by_cases hl : respQs.length = 1
+    · have hl' : (respQs.length : Int) = 1 := by omega
+      obtain ⟨b, hb⟩ : ∃ b, respQs = [b] := by
+        cases respQs with
+        | nil => simp at hl
+        | cons b t => cases t with
+          | nil => exact ⟨b, rfl⟩
+          | cons _ _ => simp at hl
+      cases reqQs with
+      | nil => simp [hid, hl, goIndex?]
+      | cons a t =>
+        by_cases ht : t1 = t2 <;> cases eqf <;> simp [hid, hb, goIndex?, ht]
+    · have hl' : ¬ (respQs.length : Int) = 1 := by omega
+      simp [hid, hl, hl']
+  · simp [hid]
+
+/-- **`validatePlainResponse` is the model's `validate`**: for every request ID, request question and
+reply of the model, the translated code (reading the fields the model reads) accepts iff the model
+does.  (The request carries a question.) -/
+theorem validate_tr (reqId : Nat) (q : Question) (m : Msg) (rq rs : Option Int) (reqQs : List Int)
+    (n1 n2 : String) (hreq : reqQs ≠ []) :
+    Returns (validatePlainResponse rq rs reqId m.id (m.qs.map fun _ => 0) reqQs q.qtype
+        (m.qs.headD ⟨[], 0⟩).qtype (decide (foldName q.name = foldName (m.qs.headD ⟨[], 0⟩).name)) n1 n2)
+      fun (err, _) => (err = none ↔ validate reqId q m = .ok) := by
+  obtain ⟨a, t, rfl⟩ : ∃ a t, reqQs = a :: t := by
+    cases reqQs with
+    | nil => exact absurd rfl hreq
+    | cons a t => exact ⟨a, t, rfl⟩
+  unfold validatePlainResponse validate
+  by_cases hid : reqId = m.id
+  · cases hq : m.qs with
+    | nil => simp [hid, Returns]
+    | cons b r =>
+      cases r with
+      | nil =>
+        by_cases ht : q.qtype = b.qtype <;> by_cases hn : foldName q.name = foldName b.name <;>
+          simp [hid, Returns, goIndex?, ht, hn, Int.natCast_inj]
+      | cons c r' =>
+        have : ¬ ((r'.length : Int) + 1 + 1 = 1) := by omega
+        simp [hid, Returns, this]
+  · have : ¬ ((reqId : Int) = (m.id : Int)) := by omega
+    simp [hid, this, Returns]
+
+example : validate 7 ⟨[65], 1⟩ ⟨7, [⟨[97], 1⟩], false, 0, 0⟩ = .ok := by decide
+
+/-- `readValidMsg`: a reply is handed on without error iff it was read and passed validation, and
+what is validated is the request against the message just read. -/
+theorem readValid_accepts_iff (u : S_forward_UpstreamPlain) (req conn : Option Int) (nw : String)
+    (buf : List Int) (rm : Option Int × Option String) (v : Option String) :
+    ((UpstreamPlain_readValidMsg u req nw conn buf rm v).2.1 = none ↔ rm.2 = none ∧ v = none)
+    ∧ (rm.2 = none → (UpstreamPlain_readValidMsg u req nw conn buf rm v).2.2.getLast?
+        = some ("validatePlainResponse", [toString req, toString rm.1])) := by
+  obtain ⟨r, e⟩ := rm
+  cases e <;> cases v <;> simp [UpstreamPlain_readValidMsg]
+
+/-- `readMsg`: a message is returned without error only if at least `minDNSMessageSize` (17) bytes
+were read and they unpacked; it is then the unpacked message. -/
+theorem readMsg_ok_only_if (u : S_forward_UpstreamPlain) (nw : String) (conn m : Option Int)
+    (buf : List Int) (rl up : Option String) (rf rd : Int × Option String)
+    (hok : (UpstreamPlain_readMsg u nw conn buf rl rf m up rd).2 = none) :
+    17 ≤ (if nw = "tcp" then rf.1 else rd.1) ∧ up = none
+      ∧ (UpstreamPlain_readMsg u nw conn buf rl rf m up rd).1 = m := by
+  obtain ⟨n1, e1⟩ := rf
+  obtain ⟨n2, e2⟩ := rd
+  unfold UpstreamPlain_readMsg at hok ⊢
+  by_cases ht : nw = "tcp"
+  · cases rl <;> cases e1 <;> cases up <;> by_cases hn : n1 < 17 <;> simp_all
+    have : ¬ n1 < 17 := by omega
+    simp [this]
+  · cases e2 <;> cases up <;> by_cases hn : n2 < 17 <;> simp_all
+    have : ¬ n2 < 17 := by omega
+    simp [this]
+
+/-! ## `isExpectedConnErr`, `exchangeUDP`, `Exchange`, `exchangeNet` -/
+
+def errX : XRes → Option String
+  | .ok _ => none
+  | .netErr => some "net"
+  | .eof => some "eof"
+  | .other => some "other"
+
+/-- `isExpectedConnErr` is the model's: a `net.Error` (`errors.As`) or `io.EOF` (`errors.Is`). -/
+theorem isExpectedConnErr_tr (x : XRes) :
+    isExpectedConnErr (errX x) (decide (x = .netErr)) (decide (x = .eof)) = x.expectedConnErr := by
+  cases x <;> simp [isExpectedConnErr, errX, XRes.expectedConnErr]
+
+def netStr : Net → String
+  | .any => ""
+  | .udp => "udp"
+  | .tcp => "tcp"
+
+def encX : XRes → Option Int × Option String
+  | .ok m => (some (m.tok : Int), none)
+  | .netErr => (none, some "net")
+  | .eof => (none, some "eof")
+  | .other => (none, some "other")
+
+def tcX : XRes → Bool
+  | .ok m => m.tc
+  | _ => false
+
+/-- The model's `exchange` as a function of the two `exchangeNet` results. -/
+def exchangeX (net : Net) (a b : XRes) : XRes × Bool :=
+  if net = .tcp then (b, true)
+  else match a with
+    | .ok m => if net ≠ .udp ∧ m.tc then (b, true) else (.ok m, false)
+    | .netErr => (.netErr, false)
+    | .eof => (.eof, false)
+    | .other => (b, true)
+
+theorem exchange_eq_exchangeX (net : Net) (reqId : Nat) (q : Question) (udp tcp : Wire) :
+    exchange net reqId q udp tcp = exchangeX net (exchangeNet reqId q udp) (exchangeNet reqId q tcp) := rfl
+
+/-- **`Exchange` ∘ `exchangeUDP` is the model's `exchange`** for every network setting and every
+pair of per-transport results: TCP is used iff the upstream is TCP-only, or the UDP reply was
+truncated and the upstream is not UDP-only, or UDP failed with an error that is not an expected
+connection error; the result is that of the transport used last. -/
+theorem exchange_tr (net : Net) (a b : XRes) (u : S_forward_UpstreamPlain) (hu : u.network = netStr net)
+    (ctx ctx' req : Option Int) (wt : Option Int × AbsPtr) :
+    let r1 := UpstreamPlain_exchangeUDP u ctx' req (encX a)
+      (isExpectedConnErr (encX a).2 (decide (a = .netErr)) (decide (a = .eof))) (tcX a)
+    let r := UpstreamPlain_Exchange u ctx req wt (r1.1, r1.2.1, r1.2.2.1) (encX b)
+    (r.1, r.2.2.1) = encX (exchangeX net a b).1 ∧ (decide (r.2.1 = "tcp")) = (exchangeX net a b).2 := by
+  cases net <;> cases a <;> by_cases ht : u.timeout > 0 <;>
+    simp [exchangeX, UpstreamPlain_Exchange, UpstreamPlain_exchangeUDP, isExpectedConnErr, encX, tcX,
+      netStr, hu, ht] <;>
+    (rename_i m; cases m.tc <;> simp)
+
+/-- **`exchangeNet` retries once, on a fresh connection, iff the first attempt ended with an expected
+connection error**; the second attempt's result is then final. -/
+theorem exchangeNet_retry_once (u : S_forward_UpstreamPlain) (ctx req gb : Option Int) (nw : String)
+    (buf : List Int) (n : Int) (c1 c2 : Option S_pool_Conn) (p1 p2 : Option Int × Option String)
+    (exp : Bool) :
+    let r := UpstreamPlain_exchangeNet u ctx req nw gb buf (n, none) (c1, none) p1 exp (c2, none) p2
+    (r.1, r.2.1) = (if exp then p2 else p1)
+      ∧ count "processConn" r.2.2 = (if exp then 2 else 1) ∧ count "Create" r.2.2 = (if exp then 1 else 0) := by
+  by_cases ht : nw = "tcp" <;> cases exp <;> simp [UpstreamPlain_exchangeNet, ht, count, names]
+
+/-! ## `annotate`, `Handler.exchange` -/
+
+/-- The deferred `annotate` (dropped from the translated `ServeDNS`) keeps nil-ness. -/
+theorem annotate_nil_iff (err : Option String) (a b : Option Int) : annotate err a b = none ↔ err = none := by
+  cases err <;> simp [annotate]
+
+/-- `Handler.exchange` asks the given upstream once and passes response and error on unchanged. -/
+theorem handler_exchange_passes (h : S_forward_Handler) (ctx u req : Option Int) (now : Int)
+    (x : Option Int × String × Option String) :
+    Handler_exchange h ctx u req now x = (x.1, x.2.2, [("Exchange", [toString ctx, toString req])]) := by
+  simp [Handler_exchange]
+
 end Agd.Tie.TrC17
